@@ -195,7 +195,7 @@ CLAIMED = {
         "the last completed save, no final name ever holds a partial file, a successful save is what the next load/autoload returns, "
         "delete removes files and emptied directories, class-mismatching loads are refused with the node unchanged. The model's "
         "predicted traces of os-level calls are compared with traces recorded on the real code; crashes are injected in a child process.",
-   design="7/C19", technique="Coq refinement invariant over histories with crash prefixes + trace correspondence + fault injection + oracle",
+   design="7/C19", technique="Coq refinement invariant over histories with crash prefixes + trace correspondence + fault injection + oracle + the file-system step list of PickleStorage._save REGENERATED from storage.py on every run and proved equal to the model's save_steps (translator tie)",
    note="FS assumptions: each primitive atomic (incl. os.replace), a dead process leaves its completed primitives plus a prefix of "
         "the write in flight, no durability semantics. Two partial theorems (known findings S24 stale tmp after crash, S25 rmdir of cwd)."),
  "C01": dict(
